@@ -283,7 +283,7 @@ func (k *Kernel) tsStartCall(c *CallState) {
 	if len(hdrs) > 0 {
 		callOpts["headers"] = hdrs
 	}
-	base := "http://" + baseHost
+	base := "http://" + baseHost + k.Plan.MountPrefix
 	if k.Plan.BaseSlash {
 		base += "/"
 	}
@@ -496,6 +496,16 @@ func (k *Kernel) serveConnTS(cn *Conn) {
 		return
 	}
 	cn.ReqParsed = true
+	if !k.stripMount(req) {
+		cn.status = 404
+		cn.WireHead = &WireReq{Verb: req.Method, Target: req.RequestURI, Header: req.Header.Clone(), ConnID: cn.id}
+		cn.call.Wire = append(cn.call.Wire, *cn.WireHead)
+		cn.s2c.send([]byte("HTTP/1.1 404 Not Found\r\nContent-Type: text/plain; charset=utf-8\r\nContent-Length: 21\r\n\r\ngateway: no such path"))
+		cn.s2c.senderEOF = true
+		cn.serverDone = true
+		k.post(kmsg{kind: "srvdone", conn: cn, ord: cn.call.Idx*1000 + cn.id})
+		return
+	}
 	hd := &WireReq{Verb: req.Method, Target: req.RequestURI, Header: req.Header.Clone(), ConnID: cn.id}
 	cn.WireHead = hd
 	hasBody := req.ContentLength != 0
